@@ -304,6 +304,27 @@ Section ChunkVerify.
         end
     end.
 
+  (* NOT the code.  The leaves above consult exactly one name per chunk: the one of the format
+     the store is configured for (slot (k, i) of the world); an object of the OTHER format under
+     the same id -- another slot (k', i) -- is never looked at.  This is the variant that, when
+     its own object is missing, falls back to that other name.  [checked] says whether what it
+     finds goes through the verifying constructor (with the other format's converters) or
+     through NewChunk, the constructor for trusted data.  For the theorems that show which of
+     the two a store may do. *)
+  Definition leaf_get_fallback (checked : bool) (k k' : nat) (o : lopts) (i : id) (w : world)
+    : res chunk * world :=
+    match leaf_get k o i w with
+    | (Err EMissing, w1) =>
+        match raw_fetch k' i w1 with
+        | (Found b, w2) =>
+            if checked
+            then (new_chunk_from_storage i b (converters (negb (lo_uncompressed o))) (lo_skip o), w2)
+            else (Ok (new_chunk b), w2)
+        | (_, w2) => (Err EMissing, w2)
+        end
+    | r => r
+    end.
+
   (* LocalStore.StoreChunk / RemoteHTTP.StoreChunk / S3Store.StoreChunk / ...:
      name from chunk.ID(), body = converters.toStorage(chunk.Data()) *)
   Definition leaf_put (k : nat) (o : lopts) (c : chunk) (w : world) : res unit * world :=
